@@ -21,8 +21,9 @@ REL = {"C16": "Tiles_C16", "C08": "Total_C08", "C06": "AstEq_C06", "C07": "SemEq
 # the 25 lexer-relevant character classes of the design (E1 E2 = the two bytes of a non-ASCII letter, bad = an invalid byte)
 CLASSES = {"sp": b" ", "tab": b"\t", "nl": b"\n", "cr": b"\r", "t": b"t", "a": b"a", "s": b"s", "k": b"k", "x": b"x", "us": b"_",
            "hash": b"#", "q": b'"', "lp": b"(", "rp": b")", "lb": b"{", "rb": b"}", "com": b",", "col": b":", "eq": b"=", "min": b"-",
-           "gt": b">", "dot": b".", "E1": b"\xc3", "E2": b"\xa9", "bad": b"\xff"}
+           "gt": b">", "dot": b".", "E1": b"\xc3", "E2": b"\xa9", "F1": b"\xd7", "F2": b"\x90", "bad": b"\xff"}
 SUB12 = ["sp", "nl", "t", "x", "hash", "q", "lp", "rp", "lb", "rb", "col", "eq"]
+# (27 classes now: a second two-byte letter F1 F2 whose lead byte read as Latin-1 is not a letter)
 
 
 def class_strings(tier):
@@ -186,7 +187,11 @@ def run(ctx):
         ctx.notes.append("model_drift: %d inputs whose real token stream differs from the stream the specification denotes/predicts (first: %r)"
                          % (drift, items[v["Drift_Toks"][0]][0][:80]))
     # binding self-test
-    st = selftest(ctx, recs, rel)
+    allbad = set()
+    for key, val in v.items():
+        if isinstance(val, list) and not key.startswith("Drift"):
+            allbad |= set(val)
+    st = selftest(ctx, [r for i, r in enumerate(recs) if i not in allbad], rel)
     # confirm (re-run alone, re-judge) and report: shortest inputs first, a handful
     bad_sorted = sorted(bad, key=lambda i: (len(items[i][0]), items[i][0]))
     reported = 0
